@@ -276,7 +276,7 @@ class GeminiServerProtocol(asyncio.Protocol):
 
         # Send body if present (only for 2x success responses)
         # FIX: Handle both text (str) and binary (bytes) content
-        if response.body:
+        if response.body and 20 <= response.status <= 29:
             if isinstance(response.body, bytes):
                 self.transport.write(response.body)
             else:
